@@ -22,7 +22,7 @@ class AppRun:
         self.net = None
         self.app = None
         self.results = []
-        self.ping_threads = []
+        self.at_return = []
 
     def cb(self, name):
         spec = self.spec
@@ -32,10 +32,11 @@ class AppRun:
             s = run.sched
             run.trace.append((s.now, name, tuple(_norm(a) for a in args)))
             act = spec.get("actions", {}).get(name)
-            if act is not None:
+            if act is not None and not (spec.get("second_no_raise") and any(t[1] == "--second-run--" for t in run.trace)):
                 act(app, run)
-            if spec.get("raising") == name:
-                n = sum(1 for t in run.trace if t[1] == name)
+            if spec.get("raising") == name and not (spec.get("second_no_raise") and any(t[1] == "--second-run--" for t in run.trace)):
+                k = max([i for i, t in enumerate(run.trace) if t[1] == "--second-run--"] + [-1])
+                n = sum(1 for t in run.trace[k + 1:] if t[1] == name)
                 if spec.get("raise_once", True) and n > 1:
                     return
                 if spec.get("raise_exc") == "KeyboardInterrupt":
@@ -67,6 +68,9 @@ class AppRun:
                 out = []
                 for i in range(runs):
                     if i == 1:
+                        if spec.get("closer") is not None:
+                            # "the same object can be run again": once the thread that called close() has finished
+                            sc.block(lambda: any(t[1] == "--closer-done--" for t in self.trace), None, "wait-closer")
                         self.trace.append((sc.now, "--second-run--", ()))
                         net.attempts = list(spec.get("second_attempts", spec["attempts"]))
                         net.nattempt = 0
@@ -81,11 +85,14 @@ class AppRun:
                         if isinstance(e, (Pruned, Divergence)):
                             raise
                         out.append(("exc", type(e).__name__, str(e)[:120]))
+                    pt = app.ping_thread
+                    self.at_return.append({"ping_alive": bool(pt is not None and pt.is_alive()), "app_sock": app.sock is not None,
+                                           "live_threads": [t.name for t in sc.threads[1:] if t.state != "done" and t.name != "closer"]})
                     self.trace.append((sc.now, "--run-returned--", ()))
                 return out
 
             closer = spec.get("closer")
-            if closer:
+            if closer is not None:
                 def closer_body():
                     # becomes runnable only once run_forever has set keep_running (a close() before the run has started is not "during the run")
                     sc.block(lambda: app.keep_running or any(t[1] == "--run-returned--" for t in self.trace), None, "closer-start")
